@@ -82,7 +82,30 @@ func enumerated(g *pipe.Gen, k int, engine string) *pipe.Scenario {
 	return sc
 }
 
+// gen: in one case of four (idx%8 == 1 on arch-v2, idx%8 == 7 on the default engine)
+// every "error" result of every processor is an ErrorRecord with a NIL Error: still a
+// rejection, so the reference outcome is the same.
 func gen(seed int64, tier string, idx int) *pipe.Scenario {
+	sc := gen0(seed, tier, idx)
+	if idx%8 == 1 || idx%8 == 7 {
+		set := func(ps []rig.ProcSpec) {
+			for i := range ps {
+				ps[i].Script.NilErrPm = 1000
+			}
+		}
+		for i := range sc.Topo.Sources {
+			set(sc.Topo.Sources[i].Procs)
+		}
+		set(sc.Topo.PipeProcs)
+		for i := range sc.Topo.Dests {
+			set(sc.Topo.Dests[i].Procs)
+		}
+		sc.Name += "+nil-errors"
+	}
+	return sc
+}
+
+func gen0(seed int64, tier string, idx int) *pipe.Scenario {
 	g := pipe.NewGen(seed, idx)
 	engine := "v2"
 	if idx%4 == 3 {
